@@ -135,8 +135,9 @@ func (this *Conn) AddNode(id uint64, address string) {
 			NodeId: id,
 		})
 		this.log.Infof("Conn: Added node: %16x", id)
-	} else if existing != address {
-		// A known node announced a new address
+	} else if address != "" && existing != address {
+		// A known node announced a new address (a membership entry that carries no
+		// address, like the bootstrap entry of the first node, announces nothing)
 		this.addresses[id] = address
 		this.connsMu.Lock()
 		if conn, exists := this.conns[id]; exists {
